@@ -737,6 +737,14 @@ func scenariosC13(tier string) []Scen {
 			out = append(out, Scen{Desc: d, Bound: 0, Body: c13Body(d), Check: c13Check, Obs: c13Obs})
 		}
 	}
+	// registered names without an inner dot (registration takes any name; calls to "local.R" route to "local"): listed,
+	// described and routed like any other
+	for _, h := range [][]string{
+		{"reg:local:d2", "dquery"}, {"reg:local:d2", "serve", "query"}, {"reg:.h:d3", "reg:local:d2", "servel", "query", "shutdown", "dquery"},
+		{"reg:local:d2", "reg:a.b:d1", "serve", "conn", "shutdown", "pquery"}, {"reg:h.:d1", "reg:local:d4", "reg:local:d2", "dquery"}} {
+		d := c13Desc{Ident: 0, Hist: h}
+		out = append(out, Scen{Desc: d, Bound: 1, Body: c13Body(d), Check: c13Check, Obs: c13Obs})
+	}
 	// concurrent registrations (competing for one name, and racing with the start of serving)
 	cb := 3
 	if tier != "quick" {
